@@ -74,6 +74,25 @@ def run(tier, seed, rng):
     ng = 70 if tier == 'quick' else 700
     feats = lambda gid: dict(generic_unpack=(gid % 2 == 0), codegen_opts=(gid % 4 == 1))
     groups = pktprops.make_groups(rng, ng, feats, values_per_class=2 if tier == 'quick' else 4, offsets=(1, 4), record=True, defaults=False)
+    # ---- zero-length and overlapping fields positioned inside bytes another field consumed (an empty chunk inside a fragment,
+    # a later fragment after it): hand-made family, every combination of position and length
+    for variant in range(3):
+        fields = [{'move': None, 'body': ('elem', ('leaf', ('int', 1, False, None, 0)))},
+                  {'move': None, 'body': ('elem', ('leaf', ('int', 1, False, None, 0)))},
+                  {'move': None, 'body': ('elem', ('leaf', ('dsized', ('lit', 8), 'const', b'')))},
+                  {'move': (('field', 0), ['RBegins', 'RInner', 'RBegins'][variant], False, 'at'),
+                   'body': ('elem', ('leaf', ('dsized', ('field', 1), 'field', b'')))},
+                  {'move': (('const', 10 + variant), 'RBegins', False, 'at'),
+                   'body': ('elem', ('leaf', ('int', 2, False, None, 0)))}]
+        if variant == 2:
+            fields.insert(4, {'move': (('const', 5), 'RBegins', False, 'at'), 'body': ('em',)})
+        table = {0: dict(end=None, align=None, sbl=None, gp=True, gu=False, vec=True, ann=True, fields=fields)}
+        G = pktcases.Group(table, 50000 + variant)
+        for off in range(2, 13):
+            for ln in (0, 1, 2):
+                raw = bytes([off, ln]) + b'ABCDEFGH' + b'\xbe\xef' + b'wxyz'
+                G.add_unpack(0, raw, 0, record=True)
+        groups.append(G)
     records, disagreements = pktcases.run_groups(groups, 'c01')
     failures = []
     dist = dict(parsed=0, exact_checked=0, weak_checked=0, with_holes=0, offset_nonzero=0, pack_error_on_overlap=0)
